@@ -207,4 +207,28 @@ example : ∃ t, addAll [(5, 50), (6, 60)] .empty = .ok t ∧ lookup 5 t 0 = som
     (∃ p, genProof codeHash 5 t 0 maxLevels [] = .ok p ∧ p.existence = true ∧ Smt.verify codeHash (T.hash codeHash t) p 5 50 = true) := by
   refine ⟨.mid (.leaf 6 60) (.leaf 5 50), by decide, by decide, by decide, ⟨⟨true, [codeHash [6, 60, 1]], none⟩, by decide, rfl, by decide⟩⟩
 
+/-- merklizing **into a tree the caller provides** (Go: WithMerkleTree): the entries are added to that tree. Afterwards it
+    maps every entry's key to its value and everything else to what it held before; a key the tree already held makes
+    the merklization fail rather than overwrite it -/
+theorem merklize_into_caller_tree (canon : String → Option String) (h : Hasher) (ds : Dataset) (t₀ : T) (mz : Merklizer)
+    (hm : merklize canon h ds t₀ = .ok mz) :
+    (∀ q, lookup q mz.tree 0 = match (mz.kvs.map fun x => (x.k, x.v)).reverse.lookup q with
+                               | some v => some v
+                               | none => lookup q t₀ 0) ∧
+    (∀ x ∈ mz.kvs, lookup x.k t₀ 0 = none) ∧ (mz.kvs.map (·.k)).Nodup := by
+  unfold merklize at hm
+  split at hm
+  · simp at hm
+  · split at hm
+    · simp at hm
+    · rename_i kvs _
+      split at hm
+      · simp at hm
+      · rename_i t ht
+        simp at hm; subst hm
+        obtain ⟨a, b, c⟩ := lookup_addAll _ t₀ t ht
+        refine ⟨a, ?_, by simpa [List.map_map, Function.comp_def] using c⟩
+        intro x hx
+        exact b (x.k, x.v) (List.mem_map_of_mem (f := fun x => (x.k, x.v)) hx)
+
 end Gsp.Props.C02
